@@ -54,7 +54,7 @@ def storeconc_family(tier, seed):
         rng.shuffle(pairs)
         fam += pairs[:500] + [x for x in mem if len(x[1]["threads"]) == 2]
     else:
-        fam += pairs + mem + ce.triple_family(rng, 25)
+        fam += pairs + mem + ce.triple_family(rng, 4)
     return fam
 
 
@@ -71,7 +71,7 @@ def storeconc_part(tier, seed, rd, fxv, viol, st, prop=PROP, inv=None, fam=None,
         if m and name not in src:
             mprogs.append(m)
             src[name] = p
-    r, beh = sc.run_model(rd, "sc", mprogs, workers=12, timeout=3000)
+    r, beh = sc.run_model(rd, "sc", mprogs, workers=12, timeout=5000)
     info = {"programs": len(mprogs), "model_states": r.distinct, "model_behaviours": len(beh),
             "model_wall_s": round(r.wall, 1), "design_violation": None}
     if r.timeout or (r.error and not r.violation):
@@ -81,7 +81,7 @@ def storeconc_part(tier, seed, rd, fxv, viol, st, prop=PROP, inv=None, fam=None,
         info["design_violation"] = r.violation
     if not beh:
         raise v.ToolError("StoreConc produced no behaviour: " + r.out[-600:])
-    sel = sc.sample(beh, nsample if tier == "quick" else 2000000, seed)
+    sel = sc.sample(beh, nsample if tier == "quick" else 300000, seed)
     # (a) the model's own behaviours, judged by the oracle that judges the implementation
     files = sc.write_model_histories(rd, "sc", mprogs, sel, chunk=4000)
     rejected = 0
